@@ -1374,19 +1374,33 @@ def tiff_scaling(check, prog):
                         return float_conv(st_.value, before[:before.index(st_)])
             return False
         nstretch = 0
-        for blk in ast.walk(fd2):
+        # display_image itself and the module-level helpers it calls
+        vism = prog.module('holopy.core.io.vis')
+        helpers = dict((n_.name, n_) for n_ in vism.tree.body
+                       if isinstance(n_, ast.FunctionDef))
+        scope = [fd2] + [helpers[c_.func.id] for c_ in ast.walk(fd2)
+                         if isinstance(c_, ast.Call) and isinstance(c_.func, ast.Name)
+                         and c_.func.id in helpers and helpers[c_.func.id] is not fd2]
+
+        def is_bound(e, k):
+            # S[k] of a two-element scaling
+            return isinstance(e, ast.Subscript) and isinstance(e.value, ast.Name) and \
+                isinstance(e.slice, ast.Constant) and e.slice.value == k
+        for blk in [b_ for f_ in scope for b_ in ast.walk(f_)]:
             body = getattr(blk, 'body', None)
             if not isinstance(body, list):
                 continue
             for i_, st_ in enumerate(body):
-                if not isinstance(st_, ast.Assign):
+                if not isinstance(st_, (ast.Assign, ast.Return)) or st_.value is None:
                     continue
                 v_ = st_.value
                 if isinstance(v_, ast.BinOp) and isinstance(v_.op, ast.Div) and \
                         isinstance(v_.left, ast.BinOp) and \
                         isinstance(v_.left.op, ast.Sub) and \
-                        'scaling[0]' in ast.unparse(v_.left.right) and \
-                        'scaling[1]' in ast.unparse(v_.right):
+                        is_bound(v_.left.right, 0) and \
+                        isinstance(v_.right, ast.BinOp) and \
+                        isinstance(v_.right.op, ast.Sub) and \
+                        is_bound(v_.right.left, 1) and is_bound(v_.right.right, 0):
                     nstretch += 1
                     check.require(float_conv(v_.left.left, body[:i_]),
                                   'U6-tiff-scaling', 'display_image stretch in float',
